@@ -618,7 +618,7 @@ class C10(Prop):
             "the signed residual is observable, through the real idct_channel (hook) vs. the soft-float model, bit for bit; all 4095 DC-only "
             "blocks and random first-row / first-column blocks over -2048..2047 on predictions 0, 128, 255; the all-zero block.  The five Annex A "
             "statistics are recomputed from the implementation's outputs against the exact reference transform (TR lines).  Non-trivial: "
-            "blocks with a non-zero residual; distinct by text.")
+            "blocks with a non-zero residual; distinct by text.  Also blocks of every shape over predictions that vary inside the block (row / column / diagonal ramps, noise).")
     trusted = COMMON_TRUSTED + ["Lean.ofReduceBool / Lean.trustCompiler (native_decide) for the nine statistical theorems named in coverage.axioms",
                                 "Spec/AnnexA.lean: cosines as 40-digit decimals, exact integer arithmetic (stands in for the procedure's double precision)"]
     assumptions = ["rustc compiles the f32 arithmetic of idct.rs to IEEE-754 binary32 round-to-nearest-even without fused multiply-add"]
@@ -669,10 +669,29 @@ class C10(Prop):
                 else:
                     blocks.append("F:" + ",".join(str(rng.choice([0, 0, rng.randint(-300, 300)])) for _ in range(64)))
             out.append(f"T {bpl} {spl} {spl * h} {rng.choice([0, 128, 255])} " + " ".join(blocks))
+        # predictions that vary inside the block (rows, columns, both, noise): the transform's contribution must not depend on them
+        for _ in range(core.q(tier, 400, 4000)):
+            t = rng.choice("DHHVVF")
+            if t == "D":
+                blk = f"D:{rng.randint(-300, 300) or 8}"
+            elif t in "HV":
+                blk = f"{t}:" + ",".join(str(rng.randint(-120, 120)) for _ in range(8))
+            else:
+                blk = "F:" + ",".join(str(rng.choice([0, 0, rng.randint(-100, 100)])) for _ in range(64))
+            style = rng.randint(0, 3)
+            a0, dx, dy = rng.randint(60, 120), rng.randint(-6, 6), rng.randint(-6, 6)
+            plane = []
+            for y in range(8):
+                for x in range(8):
+                    v = (a0 + dy * y if style == 0 else a0 + dx * x if style == 1 else a0 + dx * x + dy * y if style == 2 else rng.randint(40, 215))
+                    plane.append(max(0, min(255, v)))
+            out.append("T 1 8 64 p" + bytes(plane).hex() + " " + blk)
         return out
 
     def nontrivial(self, case, model_out):
         t = case.split(" ")
+        if t[4].startswith("p"):
+            return model_out != "T " + t[4][1:]
         return model_out != "T " + ("%02x" % int(t[4])) * int(t[3])
 
     def tally(self, hist, case, impl, model):
